@@ -1,6 +1,7 @@
 //! verif-harness: binds the TLA+ specification in /verif/spec to the real adblock-rust code.
 //!   replay <cases.jsonl> <report.json>   spec -> impl (M2): execute TLC-generated cases
 //!   record <driver> <out.ndjson> [args]  impl -> spec (M3): run a driver, log events for TLC
+mod hist;
 mod net;
 mod util;
 
@@ -32,6 +33,7 @@ fn main() {
                         }
                     }
                     "net" => net::replay_net(&nctx, c, &mut rep),
+                    "hist" => hist::replay_hist(&nctx, c, &mut rep),
                     "c02" => net::replay_c02(&ctx, c, &mut rep),
                     other => {
                         eprintln!("harness: unknown case kind {:?}", other);
